@@ -1607,7 +1607,7 @@ fn recv_response_out_of_window(rs: u16, size: u16, seq: u16) {
 
 #[kani::proof]
 #[kani::unwind(2)]
-fn c03_recv_response_previous_round_ignored() {
+fn t03_recv_response_previous_round_ignored() {
     recv_response_out_of_window(33434, 3, 33433);
 }
 #[kani::proof]
